@@ -417,6 +417,14 @@ theorem c14_fixed_width_wrappers_follow_source (bs : Bytes) :
     Generated.sizeParse bs = takeLE bs 8 ∧ Generated.offsetParse bs = takeLE bs 8 :=
   gen_fixedWidthParsers bs
 
+/-- … and so do the index and identifier wrappers: `Idx<u8|u16|u32|u64>::parse` and `Id<u8|u16>::parse`, translated on
+    every run, are little-endian reads of 1, 2, 4, 8 and 1, 2 bytes. -/
+theorem c14_index_wrappers_follow_source (bs : Bytes) :
+    Generated.idxU8Parse bs = takeLE bs 1 ∧ Generated.idxU16Parse bs = takeLE bs 2 ∧
+    Generated.idxU32Parse bs = takeLE bs 4 ∧ Generated.idxU64Parse bs = takeLE bs 8 ∧
+    Generated.idU8Parse bs = takeLE bs 1 ∧ Generated.idU16Parse bs = takeLE bs 2 :=
+  gen_indexWrappers bs
+
 /-- **The cluster header is decoded as the source decodes it**: `ClusterHeader::parse` with `CompressionType::parse`,
     translated on every run, answers on every byte string what the reader model computes from the first four bytes
     of a cluster tail: compression byte 0..3 (anything else a format error), offset width 1..8, blob count on two
